@@ -13,7 +13,11 @@ package c01
 // future (moved forward by every heartbeat) / in the past; heartbeats every 30 s..1 m for longer than resolve_timeout;
 // then the client stops, or posts the alert as resolved.
 //
-// Oracle (C01's own, on the implementation's observations only; one alert per aggregation group):
+// A third of the alerts have a TWIN in the same group whose label set differs only in surrounding white space / case /
+// a trailing NBSP of one value ({instance="db1"} vs {instance="db1 "}): two different alerts, each identified by its
+// verbatim label set in every flush and notification; the twin has the same timeline or is posted resolved all along.
+//
+// Oracle (C01's own, on the implementation's observations only):
 //   first-firing-not-notified-in-time : an alert whose first POST is firing (no endsAt, or endsAt in the future) is
 //       handed to the receiver as firing no later than group_wait after that POST (slack 0 under virtual time);
 //   firing-alert-flushed-as-resolved  : at every flush at an instant T at which the alert's most recent POST (strictly
@@ -49,11 +53,12 @@ import (
 const apiEngine = "c01api"
 
 type APIAlert struct {
-	Name      string `json:"name"`       // alertname (= its own aggregation group)
-	First     int64  `json:"first"`      // ns after the start of the run of the first POST
-	StartMode string `json:"start_mode"` // absent | first (startsAt = instant of the first POST) | past
-	StartAgo  int64  `json:"start_ago"`  // past: startsAt = first POST - StartAgo (repeated by every heartbeat)
-	EndMode   string `json:"end_mode"`   // absent | future (endsAt = POST + EndDelta) | past (endsAt = POST - EndDelta)
+	Name      string `json:"name"`           // alertname (= its aggregation group)
+	Inst      string `json:"inst,omitempty"` // value of the label "instance" ("" = no such label)
+	First     int64  `json:"first"`          // ns after the start of the run of the first POST
+	StartMode string `json:"start_mode"`     // absent | first (startsAt = instant of the first POST) | past
+	StartAgo  int64  `json:"start_ago"`      // past: startsAt = first POST - StartAgo (repeated by every heartbeat)
+	EndMode   string `json:"end_mode"`       // absent | future (endsAt = POST + EndDelta) | past (endsAt = POST - EndDelta)
 	EndDelta  int64  `json:"end_delta"`
 	Every     int64  `json:"every"` // heartbeat period
 	Beats     int    `json:"beats"` // number of POSTs
@@ -118,9 +123,55 @@ func genAPICase(r *vh.Rand) APICase {
 			a.Beats = r.Range(1, 3)
 		}
 		a.Final = vh.Pick(r, []string{"", "", "resolve"})
+		if r.Chance(1, 3) {
+			// a twin in the SAME group whose label set differs only in surrounding white space / case / a trailing NBSP of
+			// one value: a different alert, notified under its own labels. Either the same timeline, or posted as
+			// resolved all along (which must not touch the firing one).
+			v := append([]string(nil), instVariants...)
+			vh.Shuffle(r, v)
+			a.Inst = v[0]
+			b := a
+			b.Inst = v[1]
+			if r.Bool() {
+				b.StartMode, b.StartAgo, b.EndMode, b.EndDelta, b.Final = "absent", 0, "past", sec, ""
+			}
+			c.Alerts = append(c.Alerts, a, b)
+			continue
+		}
 		c.Alerts = append(c.Alerts, a)
 	}
 	return c
+}
+
+var instVariants = []string{"db1", "db1 ", " db1", "DB1", "db1\u00a0", "db1\n", "\tdb1"}
+
+func (a APIAlert) labels() map[string]string {
+	m := map[string]string{"alertname": a.Name}
+	if a.Inst != "" {
+		m["instance"] = a.Inst
+	}
+	return m
+}
+
+func (a APIAlert) String() string {
+	if a.Inst == "" {
+		return a.Name
+	}
+	return fmt.Sprintf("%s{instance=%q}", a.Name, a.Inst)
+}
+
+// is: the observed alert is exactly this alert (same label set, values verbatim)
+func (a APIAlert) is(ls model.LabelSet) bool {
+	want := a.labels()
+	if len(ls) != len(want) {
+		return false
+	}
+	for k, v := range want {
+		if string(ls[model.LabelName(k)]) != v {
+			return false
+		}
+	}
+	return true
 }
 
 type apiPost struct {
@@ -172,8 +223,8 @@ func apiTime(ns int64) time.Time {
 	return time.Unix(0, ns).UTC()
 }
 
-func postOne(t *testing.T, api *apiv2.API, transport, name string, starts, ends int64) int {
-	it := map[string]any{"labels": map[string]string{"alertname": name}}
+func postOne(t *testing.T, api *apiv2.API, transport string, labels map[string]string, starts, ends int64) int {
+	it := map[string]any{"labels": labels}
 	if starts != 0 {
 		it["startsAt"] = apiTime(starts).Format(time.RFC3339Nano)
 	}
@@ -220,9 +271,9 @@ func runAPICase(t *testing.T, c *APICase) (viol []vh.Violation, tags map[string]
 				time.Sleep(time.Duration(d))
 			}
 			synctest.Wait()
-			code := postOne(t, api, c.Transport, c.Alerts[p.idx].Name, p.starts, p.ends)
+			code := postOne(t, api, c.Transport, c.Alerts[p.idx].labels(), p.starts, p.ends)
 			if code != 200 {
-				violate("api-post-rejected", fmt.Sprintf("POST of %s (startsAt %d endsAt %d at %d) answered %d", c.Alerts[p.idx].Name, p.starts, p.ends, t0+p.t, code))
+				violate("api-post-rejected", fmt.Sprintf("POST of %s (startsAt %d endsAt %d at %d) answered %d", c.Alerts[p.idx], p.starts, p.ends, t0+p.t, code))
 			}
 			synctest.Wait()
 			last = p.t
@@ -272,7 +323,7 @@ func runAPICase(t *testing.T, c *APICase) (viol []vh.Violation, tags map[string]
 			}
 			has := func(r sim.Rec) (resolved, present bool) {
 				for _, o := range r.Alerts {
-					if string(o.Labels["alertname"]) == a.Name {
+					if a.is(o.Labels) {
 						return o.Resolved, true
 					}
 				}
@@ -280,13 +331,30 @@ func runAPICase(t *testing.T, c *APICase) (viol []vh.Violation, tags map[string]
 			}
 			first := mine[0]
 			tags["start="+a.StartMode]++
+			if a.Inst != "" {
+				tags["twin differing only in white space / case"]++
+			}
 			tags["end="+a.EndMode]++
 			if a.StartMode == "past" && a.StartAgo > c.RT {
 				tags["startsAt older than resolve_timeout"]++
 			}
 			if fu := firingUntil(first); fu != 0 {
-				deadline := t0 + first.t + c.GW
+				// batching bound: group_wait for the alert that creates its group; an alert that joins an existing group
+				// (the twin, posted at the same instant right after the creator — whose group may have flushed at once
+				// because the creator started more than group_wait ago) waits for the next flush: group_interval
+				bound := c.GW
+				if i > 0 && c.Alerts[i-1].Name == a.Name && c.GI > bound {
+					bound = c.GI
+					tags["joins an existing group: bound group_interval"]++
+				}
+				deadline := t0 + first.t + bound
 				got := false
+				if bound != c.GW {
+					if firing, judged := firingAt(deadline); !judged || !firing {
+						tags["joiner no longer firing at the next flush (clause does not apply)"]++
+						got = true
+					}
+				}
 				for _, r := range recs {
 					if r.Kind == "notify" && r.Outcome == sim.OK && r.T <= deadline {
 						if res, present := has(r); present && !res {
@@ -297,8 +365,8 @@ func runAPICase(t *testing.T, c *APICase) (viol []vh.Violation, tags map[string]
 				if got {
 					tags["first firing POST notified within group_wait"]++
 				} else {
-					violate("first-firing-not-notified-in-time", fmt.Sprintf("%s first posted firing at +%s (startsAt mode %s/%s, endsAt mode %s): no firing notification by +%s (group_wait %s)",
-						a.Name, time.Duration(first.t), a.StartMode, time.Duration(a.StartAgo), a.EndMode, time.Duration(first.t+c.GW), time.Duration(c.GW)))
+					violate("first-firing-not-notified-in-time", fmt.Sprintf("%s first posted firing at +%s (startsAt mode %s/%s, endsAt mode %s): no firing notification by +%s (batching bound %s)",
+						a, time.Duration(first.t), a.StartMode, time.Duration(a.StartAgo), a.EndMode, time.Duration(first.t+bound), time.Duration(bound)))
 				}
 			} else {
 				tags["first POST already resolved"]++
@@ -322,13 +390,13 @@ func runAPICase(t *testing.T, c *APICase) (viol []vh.Violation, tags map[string]
 				res, present := has(r)
 				switch {
 				case r.Kind == "flush" && !present:
-					violate("firing-alert-flushed-as-resolved", fmt.Sprintf("%s: flush at +%s does not hold the alert although its latest POST keeps it firing", a.Name, time.Duration(T-t0)))
+					violate("firing-alert-flushed-as-resolved", fmt.Sprintf("%s: flush at +%s does not hold the alert although its latest POST keeps it firing", a, time.Duration(T-t0)))
 				case r.Kind == "flush" && res:
-					violate("firing-alert-flushed-as-resolved", fmt.Sprintf("%s: flush at +%s holds the alert as resolved although its latest POST keeps it firing", a.Name, time.Duration(T-t0)))
+					violate("firing-alert-flushed-as-resolved", fmt.Sprintf("%s: flush at +%s holds the alert as resolved although its latest POST keeps it firing", a, time.Duration(T-t0)))
 				case r.Kind == "flush":
 					tags["flush while heartbeating: firing"]++
 				case present && res:
-					violate("firing-alert-notified-as-resolved", fmt.Sprintf("%s: notified as resolved at +%s although its latest POST keeps it firing", a.Name, time.Duration(T-t0)))
+					violate("firing-alert-notified-as-resolved", fmt.Sprintf("%s: notified as resolved at +%s although its latest POST keeps it firing", a, time.Duration(T-t0)))
 				}
 			}
 		}
@@ -340,7 +408,7 @@ func runAPICase(t *testing.T, c *APICase) (viol []vh.Violation, tags map[string]
 					if o.Resolved {
 						st = "resolved"
 					}
-					parts = append(parts, fmt.Sprintf("%s=%s[%s,%s]", o.Labels["alertname"], st, time.Duration(o.Starts-t0), time.Duration(o.Ends-t0)))
+					parts = append(parts, fmt.Sprintf("%s=%s[%s,%s]", o.Labels, st, time.Duration(o.Starts-t0), time.Duration(o.Ends-t0)))
 				}
 				trace = append(trace, fmt.Sprintf("+%-10s %-6s %s %s", time.Duration(r.T-t0), r.Kind, r.GKey, strings.Join(parts, " ")))
 			}
